@@ -50,24 +50,28 @@ var features = []feature{
 			`var c$b = mk$(); c$b.inc(); c$b.inc();`},
 		muts:  []string{`c$.inc()`, `c$.poke(7)`, `c$.swap()`, `c$b.inc()`, `c$b.poke('p')`, `c$.inc(); c$.inc(); c$.poke(c$.inc())`, `c$.peek = function(){ return 'replaced' }`, `delete c$b.poke`},
 		q:     []string{`c$.peek()`, `c$b.peek()`, `typeof c$b.poke`},
+		both:  []string{`c$.inc()`, `c$.poke('pk')`, `c$b.inc()`},
 		roots: []string{"c$", "c$b"}, plain: []string{"c$", "c$b"}},
 	{name: "nested", code: 2,
 		setup: []string{`function outer$(a){ var x = a; return function mid(b){ var y = b; return {get: function(){ return x + ',' + y }, setx: function(v){ x = v }, sety: function(v){ y = v }} } }`,
 			`var o$ = outer$(10); var n$a = o$(1), n$b = o$(2); var n$c = outer$({deep: 1})(3);`},
 		muts:  []string{`n$a.setx(5)`, `n$b.sety('yy')`, `n$b.setx({toString: function(){ return 'objx' }})`, `n$a.sety(n$b)`, `n$c.setx(n$a)`, `o$ = null`, `n$a.setx(n$a.get() + '!')`},
 		q:     []string{`n$a.get()`, `n$b.get()`, `typeof n$c.get()`, `typeof o$`},
+		both:  []string{`n$a.setx(5)`, `n$b.sety('yy')`},
 		roots: []string{"n$a", "n$b", "n$c"}, plain: []string{"n$a", "n$b"}},
 	{name: "proto", code: 3,
 		setup: []string{`function P$(){ this.own = 1 }; P$.prototype.m = function(){ return 'm' + this.v }; P$.prototype.k = 1;`,
 			`var p$ = new P$(); p$.v = 3; var q$ = Object.create(p$); q$.w = 4; var z$ = Object.create(null); z$.bare = 1; var q$2 = Object.create(q$, {dp: {value: 'dp', enumerable: true}});`},
 		muts:  []string{`P$.prototype.k = 2`, `delete P$.prototype.m`, `q$.v = 9`, `Object.getPrototypeOf(q$).z = 1`, `p$.w = 'shadowed?'`, `P$.prototype = {m: function(){ return 'new' }}`, `q$.k = 'own'`, `delete q$.w`, `z$.bare++`, `P$.prototype.m = function(){ return 'patched' + this.w }`, `Object.defineProperty(p$, 'v', {get: function(){ return 'acc' }})`},
 		q:     []string{`q$.k + ',' + q$.v + ',' + q$.w + ',' + (q$.m ? q$.m() : 'none')`, `(q$ instanceof P$) + ',' + P$.prototype.isPrototypeOf(q$) + ',' + (Object.getPrototypeOf(q$) === p$) + ',' + (Object.getPrototypeOf(q$2) === q$)`, `(function(){ var s = ''; for (var k in q$2) s += k + ';'; return s })()`, `z$.bare + ',' + (Object.getPrototypeOf(z$) === null) + ',' + ('toString' in z$)`, `(new P$().m || function(){ return 'nom' }).call({v: 'x', w: 'y'})`, `p$.constructor === P$`},
+		both:  []string{`P$.prototype.k = 2`, `q$.v = 9`},
 		roots: []string{"p$", "q$", "z$", "P$"}, plain: []string{"p$", "q$", "z$"}},
 	{name: "accessor", code: 4,
 		setup: []string{`var a$ = (function(){ var store = 1; var o = {}; Object.defineProperty(o, 'x', {get: function(){ return store }, set: function(v){ store = v * 2 }, enumerable: true, configurable: true}); Object.defineProperty(o, 'ro', {get: function(){ return 'ro' + store }}); Object.defineProperty(o, 'wo', {set: function(v){ store = -v }, configurable: true}); return o })();`,
 			`var a$p = Object.create(a$); var a$g = {get y(){ return this._y || 'unset' }, set y(v){ this._y = v + '!' }};`},
 		muts:  []string{`a$.x = 5`, `a$.wo = 3`, `Object.defineProperty(a$, 'x', {get: function(){ return 42 }})`, `a$p.x = 8`, `a$g.y = 'set'`, `delete a$.wo`, `Object.defineProperty(a$, 'wo', {get: function(){ return 'now readable' }})`, `Object.defineProperty(a$, 'x', {value: 'data now', writable: true})`, `a$.ro = 'ignored'`, `Object.defineProperty(a$g, 'y', {set: undefined})`},
 		q:     []string{`a$.x + ',' + a$.ro + ',' + a$.wo`, `a$p.x + ',' + a$p.hasOwnProperty('x')`, `a$g.y + ',' + a$g._y`, `(function(){ var d = Object.getOwnPropertyDescriptor(a$, 'x') || {}; return typeof d.get + typeof d.set + d.enumerable + d.configurable + d.writable + d.value })()`, `(function(){ var d = Object.getOwnPropertyDescriptor(a$, 'wo') || {}; return typeof d.get + typeof d.set + d.enumerable + d.configurable })()`, `(function(){ var d = Object.getOwnPropertyDescriptor(a$g, 'y') || {}; return typeof d.get + typeof d.set })()`},
+		both:  []string{`a$.x = 5`, `a$.wo = 3`, `a$g.y = 'set'`},
 		roots: []string{"a$", "a$p", "a$g"}, plain: []string{"a$", "a$g"}},
 	{name: "attrs", code: 5,
 		setup: []string{`var t$ = {}; t$.b = 1; t$.a = 2; Object.defineProperty(t$, 'h', {value: 3, enumerable: false, writable: false, configurable: false}); t$.c = 3;`,
@@ -75,23 +79,27 @@ var features = []feature{
 			`for (var ti$ = 0; ti$ < 8; ti$++) Object.defineProperty(t$, 'm' + ti$, {value: {v: ti$}, writable: !!(ti$ & 4), enumerable: !!(ti$ & 2), configurable: !!(ti$ & 1)});`},
 		muts:  []string{`t$.z = 1`, `t$.m0.v = 'x0'`, `t$.m1.v = 'x1'; t$.m2.v = 'x2'`, `t$.m3.v = 'x3'; t$.m4.v = 'x4'`, `t$.m5.v = 'x5'; t$.m6.v = 'x6'; t$.m7.v = 'x7'`, `t$.m0.added = t$.m7`, `delete t$.b; t$.b = 5`, `Object.defineProperty(t$, 'c', {enumerable: false})`, `t$.h = 9`, `t$.w = 2`, `Object.defineProperty(t$, 'w', {writable: false})`, `delete t$.e`, `delete t$.c`, `delete t$['']`, `t$.e = 7`, `Object.defineProperty(t$, 'a', {configurable: false})`, `t$[1] = 'one'`},
 		q:     []string{`Object.getOwnPropertyNames(t$).join()`, `[0, 1, 2, 3, 4, 5, 6, 7].map(function(i){ var o = t$['m' + i]; return o ? o.v + (o.added ? '+' + o.added.v : '') : 'none' }).join()`, `Object.keys(t$).join()`, `(function(){ var s = ''; for (var k in t$) s += k + '=' + t$[k] + ';'; return s })()`, `(function(){ var s = ''; Object.getOwnPropertyNames(t$).forEach(function(n){ var d = Object.getOwnPropertyDescriptor(t$, n); s += n + (d.writable ? 'w' : '-') + (d.enumerable ? 'e' : '-') + (d.configurable ? 'c' : '-') + d.value + ';' }); return s })()`},
+		both:  []string{`t$.m0.v = 'x0'`, `t$.m7.v = 'x7'`, `t$.z = 1`},
 		roots: []string{"t$"}, plain: []string{"t$"}},
 	{name: "frozen", code: 6,
 		setup: []string{`var f$ = Object.freeze({a: 1, n: {b: 2}}); var s$ = Object.seal({a: 1}); var e$ = Object.preventExtensions({a: 1}); var u$ = {a: 1, inner: {i: 1}};`},
 		muts:  []string{`f$.n.b = 3`, `s$.a = 2`, `e$.a = 5`, `delete e$.a`, `Object.freeze(u$)`, `Object.seal(u$)`, `Object.preventExtensions(u$)`, `u$.added = 1`, `f$.a = 2; f$.zz = 1`, `s$.zz = 1; delete s$.a`, `Object.freeze(u$.inner)`, `u$.inner.i++`, `u$.a = 'changed'`, `delete u$.a`},
 		q:     []string{`Object.isFrozen(f$) + ',' + f$.a + ',' + f$.n.b + ',' + f$.zz`, `Object.isSealed(s$) + ',' + s$.a + ',' + s$.zz`, `Object.isExtensible(e$) + ',' + e$.a`, `Object.isFrozen(u$) + ',' + Object.isSealed(u$) + ',' + Object.isExtensible(u$) + ',' + JSON.stringify(u$) + Object.isFrozen(u$.inner)`},
+		both:  []string{`f$.n.b = 3`, `u$.inner.i++`},
 		roots: []string{"f$", "s$", "e$", "u$"}, plain: []string{"u$"}},
 	{name: "bound", code: 7,
 		setup: []string{`var bt$ = {v: 1}; function bf$(a, b){ return this.v + ':' + (a && a.k) + ':' + b + ':' + arguments.length }; var ba$ = {k: 'arg'};`,
 			`var b$ = bf$.bind(bt$, ba$); var bb$ = b$.bind(null, 'z'); var bn$ = Array.prototype.slice.bind([1, 2, 3], 1); function BC$(a, b){ this.s = a + b }; var bc$ = BC$.bind(null, 'pre'); var b3o$ = {k: 'last'}; var b3$ = function(a, b, c, d){ return a + ':' + b + ':' + c.k + ':' + d }.bind(null, 1, 'two', b3o$);`},
 		muts:  []string{`bt$.v = 2`, `ba$.k = 'changed'`, `b3o$.k = 'last changed'`, `b3o$.k += '+'`, `bt$ = {v: 'rebound var only'}`, `b$.tag = 1`, `bf$ = null`, `ba$.k = {toString: function(){ return 'K' }}`, `bt$.v = ba$`, `BC$.prototype.extra = 'x'`},
 		q:     []string{`b$('q') + ',' + b$.length + ',' + b$.tag`, `b3$('d') + ',' + b3$.length`, `bb$('r', 's')`, `bn$().join()`, `new bc$('post').s + ',' + (new bc$(1) instanceof BC$) + ',' + new bc$(1).extra`, `typeof bf$`},
+		both:  []string{`bt$.v = 'bv'`, `ba$.k = 'bk'`, `b3o$.k = 'b3'`},
 		roots: []string{"bt$", "ba$", "b$", "bb$"}, plain: []string{"bt$", "ba$"}},
 	{name: "arguments", code: 8,
 		setup: []string{`function ag$(x, y){ return {args: arguments, setx: function(v){ x = v }, getx: function(){ return x }, gety: function(){ return y }, sety: function(v){ y = v }} }`,
 			`var g$ = ag$(1, 2, 3); var g$1 = ag$('only'); var g$s = (function(a, b){ 'use strict'; return arguments })(1, 2);`},
 		muts:  []string{`g$.setx(9)`, `g$.args[0] = 7`, `delete g$.args[1]`, `g$.args[1] = 8`, `g$.sety('y2')`, `delete g$.args[0]`, `g$.args[2] = 'third'`, `g$.args.length = 1`, `g$1.args[1] = 'beyond'`, `g$1.setx('x1')`, `Object.defineProperty(g$.args, '0', {value: 'dp'})`, `Object.defineProperty(g$.args, '1', {writable: false})`, `g$.args.callee = null`, `g$s[0] = 5`},
 		q:     []string{`g$.args[0] + ',' + g$.args[1] + ',' + g$.args[2] + ',' + g$.args.length + ',' + g$.getx() + ',' + g$.gety()`, `(g$.args.callee === ag$) + ',' + Object.prototype.toString.call(g$.args) + ',' + Object.keys(g$.args).join()`, `g$1.args[0] + ',' + g$1.args[1] + ',' + g$1.getx() + ',' + g$1.gety() + ',' + g$1.args.length`, `g$s[0] + ',' + g$s.length`},
+		both:  []string{`g$.setx(9)`, `g$.args[1] = 8`, `delete g$.args[0]`, `g$.setx('after unmap')`},
 		roots: []string{"g$", "g$1"}, plain: []string{"g$", "g$1"}},
 	{name: "builtins", code: 9,
 		setup: []string{`Array.prototype.last$ = function(){ return this[this.length - 1] }; String.prototype.sh$ = function(){ return this + '!' }; Object.prototype.op$ = 'inherited'; Math.c$ = 42;`,
@@ -103,29 +111,35 @@ var features = []feature{
 		setup: []string{`var d$ = new Date(86400000 * 366); var r$ = /a+/g; r$.exec('xaa'); var so$ = new String('abc'); so$.extra = 1; var no$ = new Number(5); var bo$ = new Boolean(false); var ri$ = new RegExp('B', 'im');`},
 		muts:  []string{`d$.setTime(5)`, `/(m$)(x)?/.test('am$b')`, `/(b)(c)/.test('abc$')`, `r$.exec('aaa baa')`, `r$.lastIndex = 0`, `so$.extra = 2`, `d$.setUTCFullYear(1999)`, `d$.tag = 'd'`, `no$.x = 1`, `r$.test('a')`, `ri$.lastIndex = 3`, `d$.setUTCHours(25)`, `so$[7] = 'idx'`, `d$ = new Date(0)`},
 		q:     []string{`d$.getTime() + ',' + d$.tag`, `r$.lastIndex + ',' + r$.source + ',' + r$.global + ',' + ri$.lastIndex + ',' + ri$.ignoreCase + ri$.multiline + ri$.source`, `so$ + so$.length + so$.extra + so$[1] + so$[7]`, `(no$ + 1) + ',' + no$.x + ',' + bo$.valueOf() + ',' + typeof bo$`, `String(RegExp['\\x241']) + ',' + String(RegExp['\\x242']) + ',' + String(RegExp.input)`},
+		both:  []string{`d$.setTime(5)`, `r$.exec('aaa baa')`, `so$.extra = 2`},
 		roots: []string{"d$", "r$", "so$", "no$"}, plain: []string{}},
 	{name: "arrays", code: 11,
 		setup: []string{`var ar$ = [1, , {x: 1}, [2, 3]]; ar$.extra = 'e'; var big$ = []; big$[100] = 'far'; var ao$ = {0: 'a', 1: 'b', length: 2};`},
 		muts:  []string{`ar$.push(4)`, `ar$.length = 1`, `ar$[2].x = 5`, `ar$[3].push(9)`, `ar$.reverse()`, `ar$.sort()`, `ar$.splice(1, 1, 'sp', 'sp2')`, `ar$.shift()`, `ar$.unshift('u')`, `ar$[1] = 'filled'`, `delete ar$[0]`, `big$.length = 50`, `big$[7] = 7`, `Array.prototype.push.call(ao$, 'c')`, `Object.defineProperty(ar$, 'length', {writable: false})`, `ar$.extra = ar$`},
 		q:     []string{`(function(){ try { return JSON.stringify(ar$) } catch (e) { return 'cyc' } })() + ar$.length + (1 in ar$) + typeof ar$.extra`, `big$.length + ',' + big$[100] + ',' + big$[7] + ',' + Object.keys(big$).join()`, `JSON.stringify(ao$)`},
+		both:  []string{`ar$.push(4)`, `ar$[2].x = 5`, `ar$[3].push(9)`},
 		roots: []string{"ar$", "ao$"}, plain: []string{"ao$"}},
 	{name: "with", code: 12,
 		setup: []string{`var w$o = {wx: 1}; var w$, w$s, w$d; with (w$o) { w$ = function(){ return wx }; w$s = function(v){ wx = v }; w$d = function(){ return delete wx } }`,
 			`var w$i = {inner: 'in'}; var gv$ = 'g0'; var w$2, w$g; with (w$i) { with (w$o) { w$2 = function(){ return inner + wx }; w$g = function(v){ if (v !== undefined) gv$ = v; return (typeof gv$) + String(gv$) } } }`},
 		muts:  []string{`w$o.wx = 2`, `w$i.inner = 'changed'`, `gv$ = 'set directly'`, `w$g('set through closure')`, `w$i.gv$ = 'shadow in outer with'`, `delete w$i.inner`, `w$s(3)`, `w$d()`, `w$s('after')`, `w$o.inner = 'shadow'`, `w$o = {wx: 'other object'}`, `wx = 'global wx'`},
 		q:     []string{`w$g() + ',' + gv$`, `(function(){ try { return w$() } catch (e) { return 'E:' + e.name } })()`, `(function(){ try { return w$2() } catch (e) { return 'E:' + e.name } })()`, `w$o.wx + ',' + (typeof wx)`},
+		both:  []string{`w$s(3)`, `w$i.inner = 'changed'`, `w$g('through closure')`},
 		roots: []string{"w$o", "w$i"}, plain: []string{"w$o"}},
 	{name: "catch", code: 13,
-		setup: []string{`var ct$; try { throw {v: 1} } catch (ex) { ct$ = {get: function(){ return ex.v }, set: function(v){ ex = {v: v} }, mut: function(v){ ex.v = v }, raw: function(){ return ex }} }`,
+		setup: []string{`var ct$c; try { throw 0 } catch (n) { ct$c = {inc: function(){ return ++n }, get: function(){ return n }} } var nfe$ = (function(){ var made = function self(v){ if (v !== undefined) self.slot = v; return self.slot }; return {f: made, viaOther: function(){ return made() }} })();`,
+			`var ct$; try { throw {v: 1} } catch (ex) { ct$ = {get: function(){ return ex.v }, set: function(v){ ex = {v: v} }, mut: function(v){ ex.v = v }, raw: function(){ return ex }} }`,
 			`var nf$ = function fact(n){ return n <= 1 ? 1 : n * fact(n - 1) }; var nf$2 = function self(){ return self }; var er$ = new TypeError('m$'); er$.extra = 1; var er$2; try { null.x } catch (e) { er$2 = e }`},
-		muts:  []string{`ct$.set(2)`, `ct$.mut(3)`, `ct$.raw().v = 'raw'`, `er$.message = 'changed'`, `er$2.extra = 'e2'`, `nf$.memo = 1`, `er$.name = 'Custom'`},
-		q:     []string{`ct$.get()`, `nf$(5) + ',' + (nf$2() === nf$2) + ',' + nf$.memo`, `er$.message + ',' + er$.name + ',' + (er$ instanceof TypeError) + ',' + er$.extra + ',' + String(er$)`, `er$2.name + ',' + (er$2 instanceof TypeError) + ',' + er$2.extra + ',' + (Object.getPrototypeOf(er$2) === TypeError.prototype)`},
+		muts:  []string{`ct$.set(2)`, `ct$c.inc()`, `ct$c.inc(); ct$c.inc()`, `nfe$.f('slot')`, `ct$.mut(3)`, `ct$.raw().v = 'raw'`, `er$.message = 'changed'`, `er$2.message = 'raised, then changed'`, `er$2.name = 'Renamed'`, `er$2.extra = 'e2'`, `nf$.memo = 1`, `er$.name = 'Custom'`},
+		q:     []string{`ct$.get() + ',' + ct$c.get() + ',' + nfe$.viaOther()`, `nf$(5) + ',' + (nf$2() === nf$2) + ',' + nf$.memo`, `er$.message + ',' + er$.name + ',' + (er$ instanceof TypeError) + ',' + er$.extra + ',' + String(er$)`, `String(er$.stack) + '|' + String(er$2.stack)`, `er$2.name + ',' + (er$2 instanceof TypeError) + ',' + er$2.extra + ',' + (Object.getPrototypeOf(er$2) === TypeError.prototype)`},
+		both:  []string{`ct$.set(9)`, `ct$.mut(3)`, `ct$c.inc()`, `er$.message = 'changed'`},
 		roots: []string{"ct$", "er$", "er$2"}, plain: []string{"ct$"}},
 	{name: "cycles", code: 14,
 		setup: []string{`var cy$ = {name: 'a'}; cy$.self = cy$; var cz$ = {peer: cy$}; cy$.peer = cz$; var sh$ = {}; var s1$ = {r: sh$}, s2$ = {r: sh$}; var gl$ = this; gl$.selfg$ = gl$;`,
 			`function F$(){}; F$.stat = {a: 1}; F$.prototype.back = F$; var fi$ = new F$(); var lst$ = null; for (var i$ = 0; i$ < 12; i$++) lst$ = {next: lst$, i: i$};`},
 		muts:  []string{`s1$.r.v = 1`, `cy$.self = null`, `cz$.peer = cz$`, `s2$.r = {}`, `F$.stat.a++`, `lst$.next.next.i = 'mut'`, `lst$ = lst$.next`, `selfg$.viaSelf$ = 1`, `delete gl$.selfg$`, `fi$.constructor = null`, `sh$.back = s1$`},
 		q:     []string{`(cy$.self === cy$) + ',' + (cy$.peer.peer === cy$) + ',' + (s1$.r === s2$.r) + ',' + s2$.r.v + ',' + (sh$.back === s1$)`, `(typeof selfg$ !== 'undefined' && selfg$ === this) + ',' + (typeof viaSelf$) + ',' + (fi$.back === F$) + ',' + F$.stat.a + ',' + (fi$.constructor === F$)`, `(function(){ var s = '', p = lst$, n = 0; while (p) { n++; if (n < 4) s += p.i + ','; p = p.next } return s + n })()`},
+		both:  []string{`s1$.r.v = 1`, `F$.stat.a++`},
 		roots: []string{"cy$", "cz$", "s1$", "s2$", "fi$"}, plain: []string{"cy$", "cz$", "s1$", "s2$", "sh$"}},
 	{name: "bindings", code: 15,
 		setup: []string{`eval('var ev$ = 1'); var nv$ = 1; function fd$(){ return 'fd' }; var fc$ = new Function('a', 'return a + nv$'); im$ = 'implicit';`,
@@ -138,12 +152,14 @@ var features = []feature{
 			`var sh1$ = {}, sh2$ = {}; shv$.forEach(function(v, i){ sh1$['k' + i] = v; sh2$['k' + i] = v }); var sh3$ = [shv$[0], shv$[0], shv$[11][0], shv$[11][0]];`},
 		muts:  []string{`sh1$.k0.push(2)`, `sh1$.k1.tag = 't'`, `sh1$.k2.setTime(99)`, `sh1$.k3.lastIndex = 4`, `sh1$.k4.message = 'changed'`, `sh1$.k5[0] = 'a0'`, `sh1$.k6.tag = 'b'`, `sh1$.k7.tag = 's'`, `sh1$.k8.tag = 'o'`, `sh1$.k9.tag = 'n'`, `sh1$.k10.tag = 'bare'`, `sh3$[0].push('via3')`, `sh3$[2].push('inner')`, `sh2$.k0 = [1]`, `shv$.reverse()`},
 		q:     []string{`Object.keys(sh1$).map(function(k){ return sh1$[k] === sh2$[k] ? 1 : 0 }).join('') + (sh3$[0] === sh3$[1] ? 1 : 0) + (sh3$[2] === sh3$[3] ? 1 : 0) + (sh3$[0] === sh1$.k0 ? 1 : 0) + (shv$.indexOf(sh1$.k2))`, `sh2$.k0.length + ',' + sh2$.k1.tag + ',' + sh2$.k2.getTime() + ',' + sh2$.k3.lastIndex + ',' + sh2$.k4.message + ',' + sh2$.k5[0] + ',' + sh2$.k6.tag + ',' + sh2$.k7.tag + ',' + sh2$.k8.tag + ',' + sh2$.k9.tag + ',' + sh2$.k10.tag + ',' + sh3$[1].length + ',' + sh3$[3].length`},
+		both:  []string{`sh1$.k0.push(2)`, `sh1$.k1.tag = 't'`, `sh1$.k2.setTime(99)`},
 		roots: []string{"sh1$", "sh2$", "shv$"}, plain: []string{"sh1$", "sh2$"}},
 	{name: "scopeflags", code: 18,
 		setup: []string{`function dl$(){ eval('var dv = 1'); var nd = 2; return {del: function(){ return delete dv }, deln: function(){ return delete nd }, get: function(){ return (typeof dv) + (typeof nd) }, set: function(v){ dv = v; nd = v }} }; var dl$o = dl$(), dl$p = dl$();`,
 			`var me$ = function me(){ me = 5; return typeof me }; var me$r = me$(); var lv$ = (function(){ var a = 1, b = {deep: {deeper: 'x'}}; function inner(){ return a + b.deep.deeper } return {inner: inner, seta: function(v){ a = v }, getb: function(){ return b }} })();`},
 		muts:  []string{`dl$o.del()`, `dl$o.deln()`, `dl$o.set('s')`, `dl$p.del(); dl$p.set(1)`, `lv$.seta(7)`, `lv$.getb().deep.deeper = 'y'`, `lv$.getb().deep = {deeper: 'z'}`, `me$()`},
 		q:     []string{`dl$o.get() + ',' + dl$p.get()`, `me$r + ',' + lv$.inner()`},
+		both:  []string{`lv$.seta(7)`, `lv$.getb().deep.deeper = 'y'`, `dl$o.set('s')`},
 		roots: []string{"dl$o", "lv$"}, plain: []string{"dl$o", "lv$"}},
 	{name: "hostcfg", code: 17,
 		setup: []string{`var hostMark$ = 0;`},
@@ -174,10 +190,28 @@ var features = []feature{
 		q:     []string{`fz$.peek() + ',' + fz$late.peek()`, `[fz$.ticket, fz$.box, fz$.both, fz$.sealed, fz$.nonext, fz$.farr, fz$.ffn, fz$.only, fz$late].map(function(o){ return (Object.isFrozen(o) ? 'F' : '-') + (Object.isSealed(o) ? 'S' : '-') + (Object.isExtensible(o) ? 'E' : '-') }).join()`, `fz$.ticket.step + ',' + fz$.ticket.zz + ',' + fz$.both.n + fz$.both.s + fz$.both.b + ',' + fz$.nonext.k + ',' + fz$.farr.length + ',' + fz$.ffn()`, `(function(){ var d = Object.getOwnPropertyDescriptor(fz$.both, 'v'), e = Object.getOwnPropertyDescriptor(fz$.box, 'w'), f = Object.getOwnPropertyDescriptor(fz$.ticket, 'next'); return typeof d.get + typeof d.set + d.configurable + typeof e.get + typeof e.set + typeof f.get + typeof f.set + f.enumerable })()`},
 		both:  []string{`fz$.ticket.next`, `fz$.box.w = 'w' + fz$.peek().length`, `fz$.both.v = 'b'`, `fz$.both.v`, `fz$.sealed.c`, `fz$.sealed.c = 7`, `fz$.nonext.a`, `fz$.child.viaProto`, `fz$.child.viaProto = 3`, `fz$.useHidden()`, `fz$.farr.g`, `fz$.ffn.g`, `fz$.only.get`, `fz$.only.set = 2`, `fz$late.tick`},
 		roots: []string{"fz$"}, plain: []string{"fz$"}},
+	// Error objects alive at Copy(): constructed, thrown through nested calls, raised by the interpreter; message and
+	// name are reassigned afterwards on either side; stack, String(e), toString and the native accessors are read
+	{name: "errors", code: 22,
+		setup: []string{`var ee$ = {}; ee$.plain = new Error('plain$'); ee$.nomsg = new Error(); ee$.type = new TypeError('type$'); ee$.range = new RangeError('range$'); ee$.called = Error('called$');`,
+			`(function(){ function lvl2(){ throw new Error('thrown$') } function lvl1(){ lvl2() } try { lvl1() } catch (e) { ee$.thrown = e } try { null.x } catch (e) { ee$.tnull = e } try { undefinedVar$$ } catch (e) { ee$.ref = e } try { new Array(-1) } catch (e) { ee$.arr = e } try { decodeURIComponent('%') } catch (e) { ee$.uri = e } try { (void 0)() } catch (e) { ee$.call = e } })(); function My$(m){ this.message = m }; My$.prototype = new Error('proto$'); My$.prototype.name = 'My$'; ee$.custom = new My$('custom$');`},
+		muts:  []string{`ee$.plain.message = 'plain changed'`, `ee$.thrown.message = 'thrown changed'`, `ee$.tnull.message = 'tnull changed'`, `ee$.ref.message = 'ref changed'; ee$.ref.name = 'RefName'`, `ee$.type.name = 'Renamed'`, `ee$.nomsg.message = 'now has one'`, `delete ee$.range.message`, `ee$.arr.message = 42`, `ee$.uri.message = {toString: function(){ return 'objmsg' }}`, `ee$.call.message += ' +ctx'`, `My$.prototype.message = 'proto changed'`, `ee$.custom.message = 'custom changed'`, `Object.defineProperty(ee$.called, 'message', {get: function(){ return 'accessor message' }})`, `Error.prototype.name = 'BaseRenamed'`, `ee$.plain.stack`, `ee$.late = new Error('late$')`, `ee$.plain = ee$.thrown`},
+		q:     []string{`Object.keys(ee$).map(function(k){ var e = ee$[k]; return k + ':' + e.name + ':' + e.message + ':' + String(e) + ':' + Error.prototype.toString.call(e) }).join('|')`, `Object.keys(ee$).map(function(k){ return String(ee$[k].stack) }).join('|')`, `Object.keys(ee$).map(function(k){ var e = ee$[k], d = Object.getOwnPropertyDescriptor(e, 'stack'); return (e instanceof Error) + (d ? typeof d.get + typeof d.set : 'nodesc') + (e.constructor ? Object.getPrototypeOf(e) === e.constructor.prototype : 'noctor') }).join()`},
+		both:  []string{`ee$.plain.message = 'plain changed'`, `ee$.tnull.message = 'tnull changed'`, `ee$.thrown.name = 'Renamed'`},
+		roots: []string{"ee$"}, plain: []string{"ee$"}},
+	// closures whose bodies evaluate literals that create objects: each call must give an object of the calling runtime
+	{name: "literals", code: 21,
+		setup: []string{`var lit$ = {re: function(){ return /ab+c/ }, rei: function(){ return /x/im }, reg: function(){ return /g/g }, arr: function(){ return [1, [2], {three: 3}] }, obj: function(){ return {a: 1, inner: {b: 2}, get g(){ return 1 }} }, fn: function(){ return function inner(){ return 'inner' } }, str: function(){ return 'lit' }, nested: function(){ return [/n/, [/m/]] }};`,
+			`var lit$loop = function(){ var seen = []; for (var i = 0; i < 3; i++) seen.push(/loop/); return seen }; lit$.re(); lit$.arr(); var lit$first = lit$.rei();`},
+		muts:  []string{`lit$.re().note = 'n'`, `lit$.re().lastIndex = 7`, `RegExp.prototype.lt$ = 'mine'`, `Array.prototype.lt$ = 'arr'`, `Object.prototype.lt$ = 'obj'`, `Function.prototype.lt$ = 'fn'`, `lit$.re().test('zabbc')`, `lit$.rei().test('X')`, `lit$.arr().push(4)`, `lit$.arr()[1].push('x')`, `lit$.obj().inner.b = 'changed'`, `lit$.fn().tag = 1`, `lit$.nested()[1][0].note = 'deep'`, `lit$loop()[0].note = 'loop'`, `lit$first.note = 'first'`, `delete RegExp.prototype.lt$`, `lit$.reg().lastIndex = 3`},
+		q:     []string{`['re', 'rei', 'reg'].map(function(k){ var x = lit$[k](); return (x instanceof RegExp) + ',' + (Object.getPrototypeOf(x) === RegExp.prototype) + ',' + x.note + ',' + x.lastIndex + ',' + x.lt$ + ',' + (lit$[k]() === lit$[k]()) + ',' + x.source }).join('|')`, `(function(){ var a = lit$.arr(), o = lit$.obj(), f = lit$.fn(), n = lit$.nested(), l = lit$loop(); return [a instanceof Array, a.length, a[1].length, a.lt$, a[2] instanceof Object, o instanceof Object, o.inner.b, o.lt$, f instanceof Function, f.tag, f.lt$, f(), n[0] instanceof RegExp, n[1][0] instanceof RegExp, n[1][0].note, l[0] === l[1], l[0].note, l[2] instanceof RegExp, lit$first.note, lit$first instanceof RegExp, lit$.str()].join() })()`, `String(RegExp['\x241']) + ',' + String(RegExp.input)`},
+		both:  []string{`lit$.re().note = 'n'`, `lit$.re().lastIndex = 7`, `lit$.rei().test('X')`, `lit$.arr().push(4)`},
+		roots: []string{"lit$"}, plain: []string{"lit$"}},
 	{name: "getterstate", code: 16,
 		setup: []string{`var gs$ = (function(){ var log = []; var target = {v: 0}; var api = {}; Object.defineProperty(api, 'hit', {get: function(){ log.push(log.length); return log.length }, enumerable: false}); api.log = function(){ return log.join('') }; api.target = target; api.bump = function(){ target.v++; return api }; return api })();`},
 		muts:  []string{`gs$.hit`, `gs$.bump().bump()`, `gs$.target.v = 'direct'`, `gs$.hit; gs$.hit`, `gs$.target = {v: 'replaced'}`},
 		q:     []string{`gs$.log() + ',' + gs$.target.v`},
+		both:  []string{`gs$.hit`, `gs$.bump()`},
 		roots: []string{"gs$"}, plain: []string{"gs$"}},
 }
 
@@ -286,6 +320,7 @@ const dumperSrc = `var __dump = (function(global){
       }
       out.push([cls, isExt(o) ? 1 : 0, protoId, pk, pd, props]);
     }
+    walk.objs = objs;
     return out;
   }
   function bound(f){ var d = gOPD(f, 'name'); return !!d && typeof d.value === 'string' && d.value.slice(0, 6) === 'bound ' }
@@ -293,6 +328,42 @@ const dumperSrc = `var __dump = (function(global){
   var pristine = [global, Object, Function, Array, String, Boolean, Number, Math, Date, RegExp, Error, EvalError, TypeError,
     RangeError, ReferenceError, SyntaxError, URIError, JSON];
   for (var pi0 = 1; pi0 < 17; pi0++) if (pi0 !== 7) pristine.push(pristine[pi0].prototype);
+  // Call every script function of the user heap that declares no parameters (guarded), in the order of a walk from
+  // all user-made globals, and describe each result: primitives by value; objects by class, by the runtime they belong
+  // to (the end of their prototype chain must be THIS runtime's Object.prototype), by their own property names and
+  // primitive values.  It changes state like any script, so the harness runs it as a step on a runtime and its replica.
+  var ObjProto = Object.prototype, builtinNames = gOPN(global);
+  function owner(v){ var p = v, n = 0; while (n++ < 64) { var q = gPO(p); if (q === null) break; p = q } return p === ObjProto ? 'own' : (p === v ? 'bare' : 'FOREIGN') }
+  function describe(v){
+    if (!isObj(v)) return typeof v + ':' + (typeof v === 'number' ? num(v) : Str(v));
+    var names = gOPN(v), parts = [];
+    for (var i = 0; i < names.length && i < 12; i++) {
+      if (typeof v === 'function' && names[i] === 'caller') continue;
+      var d = gOPD(v, names[i]);
+      parts.push(names[i] + (d && 'value' in d ? (isObj(d.value) ? '=' + toStr.call(d.value).slice(8, -1) + '/' + owner(d.value) : '=' + Str(d.value)) : '=acc'));
+    }
+    return toStr.call(v).slice(8, -1) + '/' + owner(v) + '/' + (gPO(v) === null ? 'null' : toStr.call(gPO(v)).slice(8, -1)) + '{' + parts.join(',') + '}';
+  }
+  global.__callall = function(){
+    var names = gOPN(global), roots = [];
+    for (var i = 0; i < names.length; i++) {
+      if (builtinNames.indexOf(names[i]) >= 0 || names[i] === '__dump' || names[i] === '__callall') continue;
+      var d = gOPD(global, names[i]);
+      if (d && 'value' in d && isObj(d.value)) roots.push(d.value);
+    }
+    walk(roots, pristine);
+    var objs = walk.objs, res = [];
+    for (var k = 0; k < objs.length; k++) {
+      var f = objs[k];
+      if (typeof f !== 'function' || pristine.indexOf(f) >= 0) continue;
+      var src = fnToStr.call(f), ld = gOPD(f, 'length');
+      if (src.slice(-17) === '{ [native code] }' || !ld || ld.value !== 0) continue;
+      var r;
+      try { r = describe(f()); } catch (e) { r = 'E:' + (isObj(e) ? toStr.call(e).slice(8, -1) + '/' + owner(e) + '/' + Str(gOPD(e, 'message') && gOPD(e, 'message').value) : Str(e)); }
+      res.push(k + ':' + r);
+    }
+    return res.join(';');
+  };
   return function(names){
     if (!names) return stringify(walk([global], null));
     var roots = [];
@@ -419,8 +490,8 @@ func (p picked) qexpr() string {
 
 func runC17(env *Env) {
 	env.Import = "Otto.C17.Corr"
-	env.Rule = "scenario = setup history H (2-6 feature instances out of 24 kinds: closures sharing stashes, nested scopes, prototype chains, accessors, attributes and order, frozen/sealed, holders frozen/sealed/non-extensible before Copy() with getter-only/setter-only/both accessors over captured state (also behind a prototype, behind a closure, on a frozen array and function; every accessor run on copy and original in both orders), bound functions, arguments aliasing, modified built-ins, Date/RegExp/wrapper objects, arrays, with/catch/named-function scopes, cycles, sharing of one object of every class through several paths, global bindings, stateful getters, deletable/immutable scope bindings, host configuration (stack limit, random source, debugger handler, call.Otto), closures of functions with a parameter named arguments, global eval deleted / rebound to a primitive / to another function, functions inspecting f.caller (plain, bound, method, recursive, callback); run as separate programs and cross-linked), Copy(), then 2-7 rounds each mutating one runtime (original, copy, copy of copy, later copy) or taking a further copy; after every round every runtime is compared with its replica on all observation programs and on a script dump of its user heap; non-trivial = distinct scenario with at least one mutation round and at least 3 feature kinds, or a heap-dump case"
-	pinned := []feature{defArgParam, defEvalGone1, defEvalGone2, defEvalSwap, defCaller, featureByName("frozenacc")}
+	env.Rule = "scenario = setup history H (2-6 feature instances out of 26 kinds: closures sharing stashes, nested scopes, prototype chains, accessors, attributes and order, frozen/sealed, holders frozen/sealed/non-extensible before Copy() with getter-only/setter-only/both accessors over captured state (also behind a prototype, behind a closure, on a frozen array and function; every accessor run on copy and original in both orders), bound functions, arguments aliasing, modified built-ins, Date/RegExp/wrapper objects, arrays, with/catch/named-function scopes, cycles, sharing of one object of every class through several paths, global bindings, stateful getters, Error objects (constructed, thrown, interpreter-raised) whose message/name change after Copy() with stack/String/toString read on both sides, closures evaluating regexp/array/object/function literals, deletable/immutable scope bindings, host configuration (stack limit, random source, debugger handler, call.Otto), closures of functions with a parameter named arguments, global eval deleted / rebound to a primitive / to another function, functions inspecting f.caller (plain, bound, method, recursive, callback); run as separate programs and cross-linked), Copy(), then 2-7 rounds each mutating one runtime (original, copy, copy of copy, later copy) or taking a further copy; right after Copy() and in some rounds every parameterless script function of the heap is called (guarded) on a runtime and its replica and its result described (class, owning runtime, own properties); after every round every runtime is compared with its replica on all observation programs and on a script dump of its user heap; non-trivial = distinct scenario with at least one mutation round and at least 3 feature kinds, or a heap-dump case"
+	pinned := []feature{defArgParam, defEvalGone1, defEvalGone2, defEvalSwap, defCaller, featureByName("frozenacc"), featureByName("errors"), featureByName("literals")}
 	const batch = 64
 	for base := 0; env.Count() < env.N; base += batch {
 		gens := make([]*gen, batch)
@@ -569,6 +640,17 @@ func (g *gen) scenario(defect *feature, serial int) {
 		}
 	}
 
+	// observation restricted to one feature (q = 3): used between the single accessor invocations of the both-orders block
+	observeOnly := func(s *side, tag string, p picked) {
+		src := p.qexpr()
+		a, b := js(s.vm, src), js(s.rep, src)
+		if a != b {
+			bad = true
+			fmt.Fprintf(&text, " ; DIFF side%d %s q3 real=%q replica=%q", s.id, tag, a, b)
+		}
+		obs = append(obs, fmt.Sprintf("(%d, 3, %s, %s)", s.id, cobs(a), cobs(b)))
+	}
+
 	cfg := false
 	for _, h := range hist {
 		if h == 17 {
@@ -603,8 +685,18 @@ func (g *gen) scenario(defect *feature, serial int) {
 	} else {
 		sides = append(sides, b)
 		g.dumpCase(a, b, rootNames, serial, &text)
-		observe(a, "afterCopy", true)
+		observe(a, "afterCopy", false)
 		observe(b, "afterCopy", true)
+		// ---- every parameterless function of the heap is called on both sides (order alternates with the serial)
+		if serial%2 == 0 {
+			g.applyObserved(b, "__callall()", 2, &text, &obs, &bad)
+			g.applyObserved(a, "__callall()", 2, &text, &obs, &bad)
+		} else {
+			g.applyObserved(a, "__callall()", 2, &text, &obs, &bad)
+			g.applyObserved(b, "__callall()", 2, &text, &obs, &bad)
+		}
+		observe(a, "callall", false)
+		observe(b, "callall", false)
 		// ---- accessors of holders frozen before Copy(): each one on the copy and on the original, in both orders
 		nb := 0
 		for _, p := range ps {
@@ -615,12 +707,16 @@ func (g *gen) scenario(defect *feature, serial int) {
 				}
 				nb++
 				g.apply(first, inst(m, p.k), &text)
-				observe(a, "both", false)
-				observe(b, "both", false)
+				observeOnly(a, "both", p)
+				observeOnly(b, "both", p)
 				g.apply(second, inst(m, p.k), &text)
-				observe(a, "both", false)
-				observe(b, "both", false)
+				observeOnly(a, "both", p)
+				observeOnly(b, "both", p)
 			}
+		}
+		if nb > 0 {
+			observe(a, "afterBoth", false)
+			observe(b, "afterBoth", false)
 		}
 		// ---- rounds
 		rounds := 2 + r.Intn(6)
@@ -638,6 +734,8 @@ func (g *gen) scenario(defect *feature, serial int) {
 				if r.Intn(2) == 0 {
 					g.dumpCase(x, c, rootNames, serial, &text)
 				}
+			case k == 2 && r.Intn(2) == 0:
+				g.applyObserved(x, "__callall()", 2, &text, &obs, &bad)
 			case k == 1:
 				m := fmt.Sprintf("var fresh%d = {made: %d, on: %d}; function freshf%d(){ return fresh%d.made }", i, i, x.id, i, i)
 				g.apply(x, m, &text)
@@ -653,7 +751,7 @@ func (g *gen) scenario(defect *feature, serial int) {
 				nm++
 			}
 			for _, s := range sides {
-				observe(s, fmt.Sprintf("round%d", i), i == rounds-1 || r.Intn(5) == 0)
+				observe(s, fmt.Sprintf("round%d", i), i == rounds-1)
 			}
 		}
 		_ = nm
@@ -681,6 +779,18 @@ func evalTouched(hist []int64) bool {
 		}
 	}
 	return false
+}
+
+// a step whose result is itself an observation (real runtime against its replica): used for __callall()
+func (g *gen) applyObserved(x *side, m string, q int, text *strings.Builder, obs *[]string, bad *bool) {
+	a, b := js(x.vm, m), js(x.rep, m)
+	x.log = append(x.log, m)
+	fmt.Fprintf(text, " ; side%d: %s", x.id, m)
+	if a != b {
+		*bad = true
+		fmt.Fprintf(text, " ; DIFF side%d step q%d real=%q replica=%q", x.id, q, a, b)
+	}
+	*obs = append(*obs, fmt.Sprintf("(%d, %d, %s, %s)", x.id, q, cobs(a), cobs(b)))
 }
 
 func (g *gen) apply(x *side, m string, text *strings.Builder) {
